@@ -6,7 +6,9 @@ Spec:   spec/Engine.tla (ObserverComplete, AllObserversCommit, FinalizerOnce, Fi
 Bind:   (a) probe traces: every (prefix <= 2, observer variant, discarding suffix <= 2) abstract program, TLC-validated;
         (b) the Menu: every real observer kind inserted after a real prefix and followed by a discarding suffix;
             downstream results with vs without the observer (transparency) and what the observer persisted vs the
-            results of the prefix alone (completeness); finalizer call count.
+            results of the prefix alone (completeness); finalizer call count;
+        (c) failed runs (source / a later step raising at row k or at the end): stream and checkpoint must not have
+            published an incomplete stream under their final name.
 """
 import contextlib
 import csv
@@ -244,6 +246,62 @@ def run_menu_case(item):
         shutil.rmtree(root, ignore_errors=True)
 
 
+def run_failed_case(item):
+    """a run that FAILS while rows are flowing: whatever stream / checkpoint has published under its final name afterwards
+    must still be the full stream at its position - i.e. nothing, since the full stream never passed (the unfinished
+    output stays under its temporary name)"""
+    from dataflows import Flow
+    import dataflows as DF
+    root = tempfile.mkdtemp(prefix='c05f-', dir=tlc.WORK_ROOT)
+    try:
+        okind, fail, k, n = item['obs'], item['fail'], item['k'], item['n']
+        opath = os.path.join(root, 'obs')
+        os.makedirs(opath, exist_ok=True)
+
+        class Boom(Exception):
+            pass
+
+        def source():
+            for i in range(n):
+                if fail == 'source' and i == k:
+                    raise Boom('source breaks at row %d' % i)
+                yield dict(a=i, b='s%d' % i)
+
+        def later(row):
+            if fail == 'later' and row['a'] == k:
+                raise Boom('a later step rejects row %d' % k)
+
+        def later_rows(rows):
+            yield from rows
+            if fail == 'later_end':
+                raise Boom('a later step fails after its last row')
+        obs = DF.stream(os.path.join(opath, 's.ndjson')) if okind == 'stream' else DF.checkpoint('cp', checkpoint_path=opath)
+        final = os.path.join(opath, 's.ndjson') if okind == 'stream' else os.path.join(opath, 'cp', 'stream.ndjson')
+        raised = False
+        try:
+            with contextlib.redirect_stdout(io.StringIO()), contextlib.redirect_stderr(io.StringIO()):
+                Flow(source(), obs, later, later_rows).process()
+        except Exception:
+            raised = True
+        import gc
+        gc.collect()
+        if not raised:
+            return dict(ok=True, skipped='the run did not fail')
+        if os.path.exists(final):
+            try:
+                got = read_stream(final)
+                rows = got[0]['rows'] if got else []
+            except Exception:
+                rows = None
+            full = [dict(a=i, b='s%d' % i) for i in range(n)]
+            if rows != full:
+                return dict(ok=False, why='after a failed run %s has published an incomplete stream under its final name' % okind,
+                            published_rows=None if rows is None else len(rows), full_stream_rows=n)
+        return dict(ok=True)
+    finally:
+        shutil.rmtree(root, ignore_errors=True)
+
+
 def run():
     rep = Report(PROP)
     t = rep.tier
@@ -270,6 +328,15 @@ def run():
         if not out['ok']:
             rep.violation(it, dict(case=it, **{k: v for k, v in out.items() if k != 'ok'}),
                           category='menu/%s/%s' % (it['obs'], out['why'][:50]))
+    fitems = [dict(failed_run=True, obs=o, fail=f, k=k, n=n) for o in ('stream', 'checkpoint') for f in ('source', 'later', 'later_end')
+              for (k, n) in ((0, 3), (2, 3), (150, 400), (399, 400))]
+    for it, out in zip(fitems, pmap(run_failed_case, fitems, chunksize=4)):
+        if '__harness_error__' in out:
+            raise tlc.MachineryError('harness error in failed-run cases: ' + out['__harness_error__'])
+        rep.count(1, traces=1)
+        rep.mark_distinct(it)
+        if not out['ok']:
+            rep.violation(it, dict(case=it, **{k_: v for k_, v in out.items() if k_ != 'ok'}), category='failed-run/%s/%s' % (it['obs'], it['fail']))
     rep.sample(dict(menu_case=items[0]))
     rep.notes['menu_cases'] = len(items)
     rep.notes['menu_cases_skipped_illtyped'] = skipped
@@ -282,7 +349,11 @@ def replay(path):
     setup_repo()
     rec = json.load(open(path))
     c = rec['case']
-    if 'steps' in c:
+    if c.get('failed_run'):
+        out = run_failed_case(c)
+        print(json.dumps(out, default=str)[:2000])
+        bad = not out['ok']
+    elif 'steps' in c:
         tr = engine.record(c)
         _, v = engine.validate([tr])
         bad = not v[0]['C05']
